@@ -8,6 +8,9 @@ corpus).  Each takes module source text and returns new source text.
   flipif       : `if c: A else: B`  ->  `if not c: B else: A`
   flipcmp      : `a < b` -> `b > a`, `a == b` -> `b == a` (plain operands)
   temps        : `return <call/binop>` -> `_rv = <..>; return _rv`
+  unelse       : `if c: <leaves> else: B` -> `if c: <leaves>` ; B
+  addelse      : `if c: <leaves>` ; rest  -> `if c: <leaves> else: rest`
+  condtemp     : `if <cond>:` -> `_c = <cond>` ; `if _c:`
 """
 
 import ast
@@ -200,5 +203,96 @@ def temps(src):
     return ast.unparse(tree) + "\n"
 
 
+def _leaves(stmts):
+    if not stmts:
+        return False
+    last = stmts[-1]
+    if isinstance(last, (ast.Return, ast.Raise, ast.Continue, ast.Break)):
+        return True
+    if isinstance(last, ast.If) and last.orelse:
+        return _leaves(last.body) and _leaves(last.orelse)
+    return False
+
+
+def _map_blocks(tree, fn):
+    """Apply fn(list of stmts) -> list of stmts to every statement block,
+    innermost first."""
+    for n in ast.walk(tree):
+        pass
+    def rec(node):
+        for fld in ("body", "orelse", "finalbody"):
+            b = getattr(node, fld, None)
+            if isinstance(b, list) and b and isinstance(b[0], ast.stmt):
+                for st in b:
+                    rec(st)
+                setattr(node, fld, fn(b))
+        if isinstance(node, ast.Try):
+            for h in node.handlers:
+                rec(h)
+    rec(tree)
+    return tree
+
+
+def unelse(src):
+    """`if c: <leaves> else: B`  ->  `if c: <leaves>` followed by B."""
+    def fn(stmts):
+        out = []
+        for st in stmts:
+            if isinstance(st, ast.If) and st.orelse and _leaves(st.body):
+                rest, st.orelse = st.orelse, []
+                out.append(st)
+                out.extend(rest)
+            else:
+                out.append(st)
+        return out
+    tree = _map_blocks(ast.parse(src), fn)
+    ast.fix_missing_locations(tree)
+    return ast.unparse(tree) + "\n"
+
+
+def addelse(src):
+    """`if c: <leaves>` followed by rest  ->  `if c: <leaves> else: rest`."""
+    def fn(stmts):
+        for i, st in enumerate(stmts):
+            if isinstance(st, ast.If) and not st.orelse and _leaves(st.body) and \
+                    stmts[i + 1:] and not any(
+                        isinstance(x, (ast.FunctionDef, ast.ClassDef, ast.Import,
+                                       ast.ImportFrom, ast.Global, ast.Nonlocal))
+                        for x in stmts[i + 1:]):
+                st.orelse = fn(stmts[i + 1:])
+                return stmts[:i + 1]
+        return stmts
+    tree = _map_blocks(ast.parse(src), fn)
+    ast.fix_missing_locations(tree)
+    return ast.unparse(tree) + "\n"
+
+
+def condtemp(src):
+    """`if <bool op / comparison>:` -> `_c = <..>` ; `if _c:` (not for elif
+    heads, whose evaluation would move in front of the chain)."""
+    class K:
+        k = 0
+
+    def fn(stmts):
+        out = []
+        for st in stmts:
+            if isinstance(st, ast.If) and isinstance(st.test, (ast.BoolOp, ast.Compare)) \
+                    and not any(isinstance(x, (ast.NamedExpr, ast.Yield, ast.Await))
+                                for x in ast.walk(st.test)):
+                K.k += 1
+                nm = "_cnd%d" % K.k
+                out.append(ast.Assign(targets=[ast.Name(id=nm, ctx=ast.Store())],
+                                      value=st.test))
+                st.test = ast.Name(id=nm, ctx=ast.Load())
+            out.append(st)
+        return out
+    tree = ast.parse(src)
+    # only inside functions
+    for fnode in [n for n in ast.walk(tree) if isinstance(n, ast.FunctionDef)]:
+        _map_blocks(fnode, fn)
+    ast.fix_missing_locations(tree)
+    return ast.unparse(tree) + "\n"
+
+
 ALL = {"unparse": unparse, "rename": rename, "noop": noop, "flipif": flipif,
-       "flipcmp": flipcmp, "temps": temps}
+       "flipcmp": flipcmp, "temps": temps, "unelse": unelse, "addelse": addelse, "condtemp": condtemp}
